@@ -43,6 +43,8 @@ class TermContract:
     toqito_names = set(["is_positive_semidefinite", "is_ppt", "is_hermitian", "is_identity", "is_herm_preserving", "is_completely_positive", "is_trace_preserving"])
 
     _index = None
+    # methods of opaque objects (the object is a term of sort Arr): result sorts
+    methods = {"to_nonlocal_game": Arr, "classical_value": R, "nonsignaling_value": R, "quantum_value": R}
 
     def bind_callee(self, eng, name, args, kw_terms, kws):
         """toqito callees are applied by PARAMETER NAME (bound through the callee's real signature, re-read from the repository):
@@ -251,5 +253,9 @@ CONTRACTS = {
     "common_quantum_overlap": ("toqito/state_props/common_quantum_overlap.py", [("states", "arr")], [],
                                lambda e: (lambda n, v: n * (1 - (1 - v / n)))(uf("len", R, e["states"]), tqt("state_exclusion", 0, (R, Arr), consts=["primal_dual='dual'"], vectors=e["states"], probs=ones_list(uf("len", R, e["states"])))),
                                "common_quantum_overlap(states) == n (1 - A) with A = 1 - v / n and v the exclusion value of the states with unit weights (the documented formula)"),
+    "XORGame.classical_value": ("toqito/nonlocal_games/xor_game.py", [("self", "arr")], [], lambda e: uf("method:classical_value", R, uf("method:to_nonlocal_game", Arr, e["self"])),
+                                "XORGame.classical_value() is the classical value of the game's conversion to a general nonlocal game"),
+    "XORGame.nonsignaling_value": ("toqito/nonlocal_games/xor_game.py", [("self", "arr")], [], lambda e: uf("method:nonsignaling_value", R, uf("method:to_nonlocal_game", Arr, e["self"])),
+                                   "XORGame.nonsignaling_value() is the non-signaling value of the game's conversion to a general nonlocal game"),
     "purity": ("toqito/state_props/purity.py", [("rho", "arr")], ["is_density(rho)"], lambda e: uf("np.real", R, tr(uf("np.linalg.matrix_power[2]", Arr, e["rho"]))), "purity == Re Tr(rho^2)"),
 }
